@@ -347,7 +347,7 @@ func registerHarness(m *Machine) {
 	}
 	e[hpkg+"vNote"] = func(m *Machine, fr *frame, a []value) value {
 		ps := m.PS()
-		ps.Notes = append(ps.Notes, concStr(a[0])+": "+m.concretizeStr(a[1]))
+		ps.Notes = append(ps.Notes, concStr(a[0])+": "+concStr(a[1]))
 		return nil
 	}
 	e[hpkg+"vReach"] = func(m *Machine, fr *frame, a []value) value {
